@@ -347,6 +347,38 @@ func runSchedule(r *vkit.Run, t *testing.T, idx int) {
 			off := time.Since(t0) % time.Millisecond
 			time.Sleep(time.Duration(1+rng.IntN(20))*time.Millisecond - off + 100*time.Microsecond)
 		}
+		// a last call whose context has ended before the call: whether it reports the context or closed members is the select's
+		// choice, but whatever left the set must have been returned, and nothing else
+		if violated == "" && rng.IntN(3) == 0 {
+			ctx, cancel := context.WithCancel(context.Background())
+			cancel()
+			settle := time.Duration(rng.IntN(2)) * 1500 * time.Microsecond
+			got, err := ws.Wait(ctx, settle)
+			r.Count("calls_with_ended_context", 1)
+			ret := map[<-chan struct{}]bool{}
+			for _, ch := range got {
+				ret[ch] = true
+				select {
+				case <-ch:
+				default:
+					fail("not-closed", "Wait with an ended context returned an open channel")
+				}
+			}
+			if err != nil && err != ctx.Err() {
+				fail("error-value", "Wait with an ended context returned %v, the context's error is %v", err, ctx.Err())
+			}
+			if err == nil && len(got) == 0 {
+				fail("empty-result", "Wait with an ended context returned neither channels nor an error")
+			}
+			for i := range ro {
+				if ret[ro[i]] && !member[i] {
+					fail("not-member", "Wait with an ended context returned channel %d which is not in the set", i)
+				}
+				if want := member[i] && !ret[ro[i]]; ws.Has(ro[i]) != want {
+					fail("membership", "after a Wait with an ended context (returned %d channels, err=%v): Has(channel %d)=%v, member before=%v, returned=%v", len(got), err, i, ws.Has(ro[i]), member[i], ret[ro[i]])
+				}
+			}
+		}
 		wg.Wait()
 	})
 	r.Case(h.Sum(), nontrivial)
@@ -360,7 +392,7 @@ func runSchedule(r *vkit.Run, t *testing.T, idx int) {
 
 func TestVerif_Schedules(t *testing.T) {
 	r := vkit.Start(t, "C20", "schedules", "exploration", rule)
-	r.Assume("event times are distinct (closes at integer ms, cancellation at x.25 ms, settle expiry at x.5 ms) so that the model has no ties", "the context is not cancelled before the call")
+	r.Assume("event times are distinct (closes at integer ms, cancellation at x.25 ms, settle expiry at x.5 ms) so that the model has no ties", "for a context that has ended before the call only consistency is judged (the select may report the context or closed members)")
 	r.Require("wait_calls")
 	n := vkit.N(100000, 1000000)
 	if part, idx, ok := vkit.ReplayCase(); ok {
@@ -618,3 +650,33 @@ type c20obj struct{ ID uint64 }
 
 func (*c20obj) TableHeader() []string { return []string{"ID"} }
 func (o *c20obj) TableRow() []string  { return []string{fmt.Sprint(o.ID)} }
+
+// reflect.Select takes at most 65536 cases: a set of 65535 members (plus the context) is the largest that can be waited on.
+func TestVerif_LargeSet(t *testing.T) {
+	r := vkit.Start(t, "C20", "large-set", "exploration", "sets of 1024, 65534 and 65535 members (the largest reflect.Select can take together with the context): a closed member is returned and removed, with a live context and no closed member the call waits for the context")
+	r.Require("large_set_probes")
+	for i, n := range []int{1024, 65534, 65535} {
+		ws := statedb.NewWatchSet()
+		chans := make([]chan struct{}, n)
+		for k := range chans {
+			chans[k] = make(chan struct{})
+			ws.Add(chans[k])
+		}
+		ctx, cancel := context.WithTimeout(context.Background(), 300*time.Millisecond)
+		got, err := ws.Wait(ctx, 0)
+		cancel()
+		if err == nil || err != ctx.Err() || len(got) != 0 {
+			r.Violation("large-set", i, map[string]any{"message": fmt.Sprintf("%d open members, context with a deadline: Wait returned %d channels, err=%v (want none and the context's error)", n, len(got), err)})
+		}
+		close(chans[n/2])
+		ctx, cancel = context.WithTimeout(context.Background(), 20*time.Second)
+		got, err = ws.Wait(ctx, 0)
+		cancel()
+		if err != nil || len(got) != 1 || got[0] != (<-chan struct{})(chans[n/2]) || ws.Has(chans[n/2]) || !ws.Has(chans[0]) {
+			r.Violation("large-set", i, map[string]any{"message": fmt.Sprintf("%d members, one closed: Wait returned %d channels, err=%v, Has(closed)=%v", n, len(got), err, ws.Has(chans[n/2]))})
+		}
+		r.Count("large_set_probes", 1)
+		r.Case(uint64(n), true)
+	}
+	r.Finish()
+}
